@@ -200,6 +200,45 @@ def replay_one(t, rep, db, every_step=False):
         UnitDatabase.PopSingleton()
 
 
+def subclass_consistency(rep, db):
+    """A manager configured with a unit-system class of the application (SetDefaultUnitSystemClass) whose default unit of a category is not
+    a plain lookup in its mapping: every conversion entry must go through the system's own GetDefaultUnit, i.e. agree with
+    GetCategoryDefaultUnit - checked without a model, entry against entry."""
+    from barril.units import ObtainQuantity, Scalar, UnitDatabase
+    from barril.units.unit_system import UnitSystem
+    from barril.units.unit_system_manager import UnitSystemManager
+
+    class FallbackUnitSystem(UnitSystem):
+        FALLBACK = {"length": "km", "time": "min", "depth": "cm"}
+
+        def GetDefaultUnit(self, category):
+            return UnitSystem.GetDefaultUnit(self, category) or self.FALLBACK.get(category)
+
+    n = 0
+    UnitDatabase.PushSingleton(db)
+    try:
+        m = UnitSystemManager()
+        m.SetDefaultUnitSystemClass(FallbackUnitSystem)
+        for mapping in ({}, {"length": "m"}, {"time": "s", "depth": "m"}):
+            sid = m.GetNewId()
+            m.SetCurrent(m.AddUnitSystem(sid, "caption", dict(mapping)))
+            for c, u, x in (("length", "cm", 250.0), ("length", "km", 1.5), ("depth", "m", 3.0), ("time", "s", 90.0), ("time", "min", 2.0), ("mass", "kg", 1.0)):
+                du = m.GetCategoryDefaultUnit(c)
+                want_u = du or u
+                want_v = db.Convert(c, u, want_u, x)
+                got = {"ConvertToCurrent": P.outcome(lambda: tuple(m.ConvertToCurrent(c, u, x))),
+                       "ConvertScalarToCurrent": P.outcome(lambda: (lambda s_: (s_.GetValue(), s_.GetUnit()))(m.ConvertScalarToCurrent(Scalar(c, x, u)))),
+                       "GetQuantityDefaultUnit": P.outcome(lambda: (want_v, m.GetQuantityDefaultUnit(ObtainQuantity(u, c))))}
+                for name, o in got.items():
+                    n += 1
+                    if o[0] != "ok" or o[1][1] != want_u or abs(o[1][0] - want_v) > 1e-9 * max(1.0, abs(want_v)):
+                        rep.violation({"check": "application unit-system class: entry disagrees with GetCategoryDefaultUnit", "entry": name, "category": c, "unit": u,
+                                       "mapping": mapping}, {"default_unit": du, "expected": [want_v, want_u], "observed": o[1] if o[0] == "ok" else o[2]})
+    finally:
+        UnitDatabase.PopSingleton()
+    return n
+
+
 def main(tier):
     from . import export
 
@@ -246,6 +285,7 @@ def main(tier):
     n += len(sims)
     rep.cov["simulated_behaviours"] = {"count": len(sims), "depth": dsim, "seed": sd + 1}
     rep.sample({"simulated_history": short(sims[0]["h"])})
+    n += subclass_consistency(rep, db)
     rep.count(evaluations=n, nontrivial=n, traces=n)
     rep.cov["replayed_by_op"] = ops
     rep.assumptions += ["pools: 3 ids (two of the form 'system N'), 2 categories, 4 units, 3 mapping literals passed as the same dict "
